@@ -11,8 +11,9 @@ from ..decodestate import DecodeState
 from ..diagcodedtype import DiagCodedType
 from ..encodestate import EncodeState
 from ..exceptions import DecodeError, EncodeError, odxraise, odxrequire
-from ..odxlink import OdxDocFragment, OdxLinkId
+from ..odxlink import OdxDocFragment, OdxLinkDatabase, OdxLinkId
 from ..odxtypes import AtomicOdxType, DataType, ParameterValue
+from ..snrefcontext import SnRefContext
 from ..utils import dataclass_fields_asdict
 from .parameter import Parameter, ParameterType
 
@@ -50,6 +51,18 @@ class CodedConstParameter(Parameter):
         result.update(self.diag_coded_type._build_odxlinks())
 
         return result
+
+    @override
+    def _resolve_odxlinks(self, odxlinks: OdxLinkDatabase) -> None:
+        super()._resolve_odxlinks(odxlinks)
+
+        self.diag_coded_type._resolve_odxlinks(odxlinks)
+
+    @override
+    def _resolve_snrefs(self, context: SnRefContext) -> None:
+        super()._resolve_snrefs(context)
+
+        self.diag_coded_type._resolve_snrefs(context)
 
     @override
     def get_static_bit_length(self) -> Optional[int]:
